@@ -8,7 +8,7 @@
 #include "src/express/resolve.c"
 
 /* ---- recording stub for the reporter ---- */
-int g_rep_calls, g_rep_errnum, g_rep_error_class; Symbol *g_rep_sym; const void *g_rep_a1, *g_rep_a2;
+int g_rep_calls, g_rep_errnum, g_rep_error_class, g_rep_i1, g_rep_i2; Symbol *g_rep_sym; const void *g_rep_a1, *g_rep_a2;
 void ERRORreport_with_symbol(enum ErrorCode errnum, Symbol *sym, ...)
 {
     va_list ap; va_start(ap, sym);
@@ -16,12 +16,21 @@ void ERRORreport_with_symbol(enum ErrorCode errnum, Symbol *sym, ...)
     /* conversions per the table formats (error.c): two %s for OVERLOADED_ATTR / MISSING_SUPERTYPE / REDECL_*, one for the loop diagnostics */
     g_rep_a1 = va_arg(ap, const void *);
     if (errnum == OVERLOADED_ATTR || errnum == MISSING_SUPERTYPE || errnum == REDECL_NO_SUCH_ATTR || errnum == REDECL_NO_SUCH_SUPERTYPE) g_rep_a2 = va_arg(ap, const void *);
+    if (errnum == WRONG_ARG_COUNT) { g_rep_i1 = va_arg(ap, int); g_rep_i2 = va_arg(ap, int); }   /* "Call to %s uses %d arguments, but expected %d." */
     va_end(ap);
 }
 /* ---- model of the contract of ENTITYget_named_attribute (entity.c): own or inherited attribute of that name ---- */
 Variable g_inherited; Entity g_gna_entity; char *g_gna_name; int g_gna_calls;
 Variable ENTITYget_named_attribute(Entity e, char *name) { g_gna_calls++; g_gna_entity = e; g_gna_name = name; return g_inherited; }
 void *DICTdo(DictionaryEntry *de) { (void)de; return 0; }
+/* ---- models for the function-call arm of EXP_resolve: the scope look-up answers with the harness-chosen object and kind
+ *      (contract of SCOPEfind: the object of that name and DICT_type = its kind, or NULL), the argument list has the
+ *      harness-chosen length ---- */
+void *g_sf_result; char g_sf_kind; int g_sf_calls; char *g_sf_name; int g_nargs;
+char DICT_type;
+void *SCOPEfind(Scope s, char *name, int type) { (void)s; (void)type; g_sf_calls++; g_sf_name = name; DICT_type = g_sf_kind; return g_sf_result; }
+int LISTget_length(Linked_List l) { (void)l; return g_nargs; }
+struct Scope_ *FUNC_NVL, *FUNC_USEDIN;
 /* ---- models of the contracts of the two attribute look-ups (schema.c / entity.c), over one ghost fact chosen by the harness:
  *      where the name is declared relative to the entity asked about: 1 = in it or in an ancestor, 2 = only in a subtype, 0 = nowhere.
  *      VARfind(entity, name, strict): own or inherited attribute, never a subtype's (enforced on the real bodies in unit entity_c, h_VARfind);
